@@ -280,22 +280,29 @@ def part1_programs(ck, tier):
                         continue
                     for after in (("same", "accept") if t in ("telnet", "paramiko", "asyncssh") and kind == "read" else ("same",)):
                         runs.append((t, op, prog, k, kind, o, after, 0))
+                    runs.append((t, op, prog, k, kind, o, "same", -1))      # -1: channel_lock=True (guarded lock), otherwise like pend 0
                     if t in L.TELNETS and kind == "read":
                         # the device drops the session strictly inside a Telnet command: IAC / IAC + verb arrive, then the loss
                         for pend in (1, 2):
                             runs.append((t, op, prog, k, kind, o, "same", pend))
     lines, results = [], []
     for t, op, prog, k, kind, o, after, pend in runs:
-        link = L.Link(t, device=CliDevice("cisco_iosxe"), fault=(k, kind, o, pend), after=after)
+        link = L.Link(t, device=CliDevice("cisco_iosxe"), fault=(k, kind, o, max(pend, 0)), after=after)
         t0 = time.time()
         with L.patched(link):
-            conn = L.make_real_conn(t, link, timeout_ops=0.3)
+            conn = L.make_real_conn(t, link, timeout_ops=0.3, channel_lock=pend == -1)
             try:
+                if pend == -1:
+                    L.guard_channel_lock(conn)
                 if t in L.ASYNC:
                     L.ReadGuard(conn)
                 r = L.run_op(conn, op)
                 alive = L.run_op(conn, "isalive")
                 nxt = L.run_op(conn, "get_prompt")
+                if nxt[0] == "exc" and exc_allowed(nxt[1]):
+                    n3 = L.run_op(conn, "send_command")      # third operation on the same connection
+                    if not (n3[0] == "exc" and exc_allowed(n3[1])):
+                        nxt = n3
             finally:
                 L.dispose(t, conn.transport)
         last_call = link.calls[-1] if link.calls else (kind, o)
@@ -310,7 +317,7 @@ def part1_programs(ck, tier):
         # the model sees the pending control bytes as the suffix of the last chunk read before (same transport state when the loss arrives)
         envl = ["data"] * k + [o]
         c0 = 0
-        if pend:
+        if pend > 0:
             prev = [j for j in range(k) if prog[j] == "R"]
             if prev:
                 envl[prev[-1]] = "dataIac" if pend == 1 else "dataIacVerb"
@@ -333,15 +340,18 @@ def part1_programs(ck, tier):
             if obs == "done" and kind == "write":
                 pass          # a write the library still accepted, nothing read afterwards: not detectable inside this operation
             else:
-                atom = (["busy", t, kind, o] if obs == "hang" else ["map", t, kind, o]) + ([f"pend{pend}"] if pend else [])
+                atom = (["busy", t, kind, o] if obs == "hang" else ["map", t, kind, o]) + ([f"pend{pend}"] if pend > 0 else ["lock"] if pend < 0 else [])
                 ck.violation({**case, "atom": atom}, f"{t} {op}: {kind} #{k} meets {o} -> operation ends with {case['observed']}", matcher)
                 continue
         if obs != "done" and L.sets_loss(t, o) and not (alive[0] == "ok" and alive[1] is False):
             ck.violation({**case, "atom": ["alive", t, kind, o]}, f"{t} {op}: isalive() after the loss -> {alive[1]!r}", matcher)
             continue
         if obs != "done" and L.sets_loss(t, o) and obs_next not in ALLOWED:
-            atom = ["busy", t, kind, o] if obs_next == "hang" else ["map", t, last_call[0], last_call[1]]
-            ck.violation({**case, "atom": atom}, f"{t} {op}: operation on the dead connection -> {obs_next}", matcher)
+            atom = (["busy", t, kind, o] if obs_next == "hang" else ["map", t, last_call[0], last_call[1]]) + (["lock"] if pend < 0 else [])
+            why = (" — it blocks for ever on the channel lock that the interrupted operation left held (channel_lock=True)" if obs_next == "hang" and pend < 0
+                   else " — it spins without ever yielding to the event loop" if obs_next == "hang" else "")
+            ck.violation({**case, "atom": atom, "channel_lock": pend < 0, "history": [op, "get_prompt", "send_command"]},
+                         f"{t} {op} interrupted by {kind} #{k} meeting {o}; a following operation on the same (dead) connection -> {obs_next}{why}", matcher)
             continue
         # correspondence (outcome class, aliveness, next operation) — only where the property's observables are defined
         if t in L.ASYNC and o == "timeout":
@@ -376,28 +386,34 @@ def part1_telnet_streams(ck, tier):
     from vlib.common import REPO
     n = len(R.telnet_stream())
     inside = set(R.iac_offsets())
-    cases = [(t, o, k) for t in ("telnet", "asynctelnet") for o in ("empty", "reset") for k in range(0, n + 2)]
+    cases = [(t, o, k, False) for t in ("telnet", "asynctelnet") for o in ("empty", "reset") for k in range(0, n + 2)]
+    # channel_lock=True with the REAL lock and the real timeout mechanism (thread pool for TelnetTransport, wait_for for asyncio), small finite
+    # timeout_ops: drop during login, strictly inside a command, in plain output, near the end; then a second and a third operation
+    lock_cases = [(t, o, k, True) for t in ("telnet", "asynctelnet") for o in ("empty", "reset") for k in (30, 103, 110, 160)]
     try:
         results = R.run_stream_cases(str(REPO), cases)
+        results += R.run_stream_cases(str(REPO), lock_cases, per_case_limit=8.0, timeout_ops=0.5)
     except Exception as e:
         raise RigError(f"telnet stream worker: {e!r}")
+    cases = cases + lock_cases
     nores = [c for c, r in zip(cases, results) if r is None or (r["res"] is None and not r["killed"])]
+    ck.extra["telnet_stream_lock_cases"] = len(lock_cases)
     if len(nores) > len(cases) // 10:
         r0 = next(r for r in results if r is None or r["res"] is None)
         raise RigError(f"{len(nores)} of {len(cases)} telnet stream cases gave no result: {(r0 or {}).get('err', '')}")
-    for (t, o, k), r in zip(cases, results):
+    for (t, o, k, lock), r in zip(cases, results):
         if r is None or (r["res"] is None and not r["killed"]):
             ck.extra["stream_cases_without_result"] = ck.extra.get("stream_cases_without_result", 0) + 1
             continue
-        r = dict(r, spec={"rig": t, "mode": o, "offset": k})
-        v = R.judge(r, hard_limit=20.0)
+        r = dict(r, spec={"rig": t, "mode": o, "offset": k, "channel_lock": lock})
+        v = R.judge(r, hard_limit=8.0 if lock else 20.0)
         ops = r["res"]["ops"]
         first = next((x for x in ops if not x["ok"]), None)
-        ck.case(("stream", t, o, k), nontrivial=v is not None, sample={"transport": t, "loss": o, "offset": k, "ops": ops},
-                tags=(f"t={t}", "telnet-stream", "cut-inside-iac" if k in inside else "cut-elsewhere", f"streamloss={o}",
+        ck.case(("stream", t, o, k, lock), nontrivial=v is not None, sample={"transport": t, "loss": o, "offset": k, "channel_lock": lock, "ops": ops},
+                tags=(f"t={t}", "telnet-stream", f"channel_lock={lock}", "cut-inside-iac" if k in inside else "cut-elsewhere", f"streamloss={o}",
                       "stream:" + ("hang" if r["killed"] else "completed" if v is None else f"{first['op']}->{first['exc']}")))
         for atom, text in (v or []):
-            ck.violation({"kind": "stream", "atom": ["stream"] + atom[:1] + [t], "transport": t, "loss": o, "offset": k, "inside_command": k in inside, "ops": ops},
+            ck.violation({"kind": "stream", "atom": ["stream"] + atom[:1] + [t], "transport": t, "loss": o, "offset": k, "channel_lock": lock, "inside_command": k in inside, "ops": ops},
                          f"telnet session lost ({o}) after byte {k}" + (" — strictly inside an IAC command" if k in inside else "") + ": " + text, matcher)
     ck.extra["telnet_stream_cases"] = len(cases)
     ck.extra["telnet_stream_offsets_inside_commands"] = sorted(inside)
@@ -707,7 +723,9 @@ def run(tier, seed):
                "command, in a killable worker. (2) Sim transports: open (plain, telnet login, ssh login), get_prompt, send_command, "
                "send_configs, send_interactive, close with the default platform hooks x sync/asyncio x 5 platforms, the session dropped at every "
                "write and every byte offset (quick: every write, first/last 20 offsets, every 3rd in between for long exchanges; thorough: all); "
-               "never-opened connections. Non-trivial = a loss/fault was delivered; distinct by (transport|platform, stack, op, position, outcome). "
+               "each run with channel_lock False and True (True: the channel lock replaced by a guarded twin whose would-block acquire raises instead of blocking), "
+               "followed by isalive() and a SECOND and THIRD operation on the same connection; never-opened connections (operation tried twice). The telnet stream part "
+               "adds 16 channel_lock=True cases with the REAL lock and the real timeout mechanism (thread pool / wait_for, timeout_ops 0.5) in the killable worker. Non-trivial = a loss/fault was delivered; distinct by (transport|platform, stack, op, position, outcome). "
                "(3) thorough: real pty child killed / loopback TCP Telnet device (login + negotiation commands) closing by FIN or RST after every byte "
                "offset of the session / in-process ssh server dropping, at byte offsets.")
     ck.trusted = ["Lean 4.33.0 kernel; axioms of every theorem audited ⊆ {propext, Classical.choice, Quot.sound}",
@@ -767,9 +785,12 @@ def replay(path):
     if k == "prog":
         from harness.simdevice import CliDevice
         t = v["transport"]
-        link = L.Link(t, device=CliDevice("cisco_iosxe"), fault=tuple(v["fault"]), after=v.get("after_policy", "same"))
+        flt = list(v["fault"]) + [0] * (4 - len(v["fault"]))
+        link = L.Link(t, device=CliDevice("cisco_iosxe"), fault=(flt[0], flt[1], flt[2], max(flt[3], 0)), after=v.get("after_policy", "same"))
         with L.patched(link):
-            conn = L.make_real_conn(t, link, timeout_ops=0.3)
+            conn = L.make_real_conn(t, link, timeout_ops=0.3, channel_lock=flt[3] == -1)
+            if flt[3] == -1:
+                L.guard_channel_lock(conn)
             if t in L.ASYNC:
                 L.ReadGuard(conn)
             res = L.run_op(conn, v["op"])
@@ -799,8 +820,9 @@ def replay(path):
     if k == "stream":
         from harness import c08rigs as R
         from vlib.common import REPO
-        r = R.run_stream_cases(str(REPO), [(v["transport"], v["loss"], v["offset"])])[0]
-        r = dict(r, spec={"rig": v["transport"], "mode": v["loss"], "offset": v["offset"]})
+        lk = bool(v.get("channel_lock"))
+        r = R.run_stream_cases(str(REPO), [(v["transport"], v["loss"], v["offset"], lk)], per_case_limit=8.0 if lk else 20.0, timeout_ops=0.5 if lk else 2.0)[0]
+        r = dict(r, spec={"rig": v["transport"], "mode": v["loss"], "offset": v["offset"], "channel_lock": lk})
         print(json.dumps(r, indent=1)[:2500])
         j = R.judge(r, hard_limit=20.0)
         print("verdict:", j)
